@@ -29,11 +29,11 @@ def run(ctx):
     )
     run.trusted_base = ["CPython ast", "callee resolution of sa/callgraph.py (exact edges only)"]
     run.assumptions = ["Python argument binding semantics"]
-    rule_binding(ctx)
-    rule_strictness(ctx)
-    rule_forward(ctx)
-    rule_version_in_scope(ctx)
-    rule_detect(ctx)
+    ctx.do(rule_binding)
+    ctx.do(rule_strictness)
+    ctx.do(rule_forward)
+    ctx.do(rule_version_in_scope)
+    ctx.do(rule_detect)
 
 
 def iter_exact_calls(prog, cg, include_cha_unique=False):
